@@ -1,7 +1,7 @@
 (* C04 — MySQL: emitted DDL is executable in order and leaves the declared schema; every MODIFY keeps the
-   column's current type, nullability and default.  Pinned statements only.
+   column's current type, nullability and default (section 6: all attributes at once).  Pinned statements only.
    Engine = the MySQL catalog MODEL of Model/Engine.v (modelled, not verified: no server in the sandbox). *)
-From VV.MYSQL Require Import Spec SpecKeys SpecCreate SpecFk ModifyP WitnessP SimP SimKeysP SimCreateP SimFkP SimRemoveP SimRenameP SimAllP SpecPending SimPendP SimPend2P.
+From VV.MYSQL Require Import Spec SpecKeys SpecCreate SpecFk ModifyP WitnessP SimP SimKeysP SimCreateP SimFkP SimRemoveP SimRenameP SimAllP SpecPending SimPendP SimPend2P ModifyAllP SimDeleteKeysP SimRenameNamedP.
 
 (* ------------------------------------------------------------------------------------------------------
    1. The history-dependent part, for ALL inputs: the MODIFY COLUMN emitted for a ModifyColumn{Type,
@@ -535,3 +535,190 @@ Example C04_modify_preserves_hypotheses_satisfiable :
   modify_default_ok (ModifyColumnType "t" "name" (TSimple Text) None)
                     (mkCol "name" (TVarchar 32) false (Some (DStr "'x'")) None None None None None) = true.
 Proof. repeat split; try (vm_compute; reflexivity). eexists. vm_compute. reflexivity. Qed.
+
+(* ------------------------------------------------------------------------------------------------------
+   6. The MODIFY COLUMN re-declaration in its strongest form.  For every ModifyColumn{Type,Nullable,Default,Comment}
+      on an existing column that is not the auto-increment key (class C04-autoinc-lost-on-modify), whose kept default is
+      not re-quoted (C04_modify_type_requotes_refuted) and — for the three kinds that write no COMMENT clause — that
+      carries no comment (class C04-comment-lost-on-modify), the single MODIFY COLUMN restates ALL SIX attributes of a
+      MySQL column definition exactly as the evolving schema holds them after the action:
+      restated_all d = (type text, NOT NULL, DEFAULT text, COMMENT, AUTO_INCREMENT, inline PRIMARY KEY). *)
+Theorem C04_modify_restates_all : forall s P a t c col s',
+  modify_target a = Some (t, c) ->
+  lookup_column s t c = Some col ->
+  apply_action s a = Ok s' ->
+  modify_all_hyp s a t c col = true ->
+  exists pre d col',
+    gen s P a = Ok (pre ++ [SModifyColumn t d]) /\
+    forallb is_update pre = true /\
+    lookup_column s' t c = Some col' /\
+    cd_name d = c /\
+    restated_all d = declared_all s' t col'.
+Proof. exact modify_restates_all. Qed.
+Print Assumptions C04_modify_restates_all.
+Check C04_modify_restates_all : forall s P a t c col s',
+  modify_target a = Some (t, c) ->
+  lookup_column s t c = Some col ->
+  apply_action s a = Ok s' ->
+  modify_all_hyp s a t c col = true ->
+  exists pre d col',
+    gen s P a = Ok (pre ++ [SModifyColumn t d]) /\
+    forallb is_update pre = true /\
+    lookup_column s' t c = Some col' /\
+    cd_name d = c /\
+    restated_all d = declared_all s' t col'.
+
+Theorem C04_modify_restates_all_plan : forall s acts L i a t c col s',
+  gen_plan s acts = Ok L ->
+  nth_error acts i = Some a ->
+  modify_target a = Some (t, c) ->
+  lookup_column (schema_at s acts i) t c = Some col ->
+  apply_action (schema_at s acts i) a = Ok s' ->
+  modify_all_hyp (schema_at s acts i) a t c col = true ->
+  exists pre d col',
+    nth_error L i = Some (pre ++ [SModifyColumn t d]) /\
+    forallb is_update pre = true /\
+    lookup_column (schema_at s acts (S i)) t c = Some col' /\
+    cd_name d = c /\
+    restated_all d = declared_all (schema_at s acts (S i)) t col'.
+Proof. exact modify_restates_all_plan. Qed.
+Print Assumptions C04_modify_restates_all_plan.
+Check C04_modify_restates_all_plan : forall s acts L i a t c col s',
+  gen_plan s acts = Ok L ->
+  nth_error acts i = Some a ->
+  modify_target a = Some (t, c) ->
+  lookup_column (schema_at s acts i) t c = Some col ->
+  apply_action (schema_at s acts i) a = Ok s' ->
+  modify_all_hyp (schema_at s acts i) a t c col = true ->
+  exists pre d col',
+    nth_error L i = Some (pre ++ [SModifyColumn t d]) /\
+    forallb is_update pre = true /\
+    lookup_column (schema_at s acts (S i)) t c = Some col' /\
+    cd_name d = c /\
+    restated_all d = declared_all (schema_at s acts (S i)) t col'.
+
+Theorem C04_modify_restates_all_history : forall (H : list plan) k p sb L i a t c col s_i s',
+  nth_error H k = Some p ->
+  replay (firstn k H) = Ok sb ->
+  gen_plan sb (p_actions p) = Ok L ->
+  nth_error (p_actions p) i = Some a ->
+  apply_all sb (firstn i (p_actions p)) = Ok s_i ->
+  modify_target a = Some (t, c) ->
+  lookup_column s_i t c = Some col ->
+  apply_action s_i a = Ok s' ->
+  modify_all_hyp s_i a t c col = true ->
+  exists pre d col',
+    nth_error L i = Some (pre ++ [SModifyColumn t d]) /\
+    forallb is_update pre = true /\
+    lookup_column s' t c = Some col' /\
+    cd_name d = c /\
+    restated_all d = declared_all s' t col'.
+Proof. exact modify_restates_all_history. Qed.
+Print Assumptions C04_modify_restates_all_history.
+Check C04_modify_restates_all_history : forall (H : list plan) k p sb L i a t c col s_i s',
+  nth_error H k = Some p ->
+  replay (firstn k H) = Ok sb ->
+  gen_plan sb (p_actions p) = Ok L ->
+  nth_error (p_actions p) i = Some a ->
+  apply_all sb (firstn i (p_actions p)) = Ok s_i ->
+  modify_target a = Some (t, c) ->
+  lookup_column s_i t c = Some col ->
+  apply_action s_i a = Ok s' ->
+  modify_all_hyp s_i a t c col = true ->
+  exists pre d col',
+    nth_error L i = Some (pre ++ [SModifyColumn t d]) /\
+    forallb is_update pre = true /\
+    lookup_column s' t c = Some col' /\
+    cd_name d = c /\
+    restated_all d = declared_all s' t col'.
+
+(* the comment condition cannot be dropped.  For EVERY input of the class: the schema keeps the comment, the MODIFY has
+   none (MySQL's MODIFY COLUMN replaces the whole definition [M9]) *)
+Theorem C04_modify_drops_comment : forall s P a t c col s' m,
+  modify_target a = Some (t, c) ->
+  lookup_column s t c = Some col ->
+  apply_action s a = Ok s' ->
+  modify_default_ok a col = true ->
+  p_comment_lost s a = true ->
+  c_comment col = Some m ->
+  exists pre d col',
+    gen s P a = Ok (pre ++ [SModifyColumn t d]) /\
+    lookup_column s' t c = Some col' /\
+    c_comment col' = Some m /\ cd_comment d = None.
+Proof. exact modify_drops_comment. Qed.
+Print Assumptions C04_modify_drops_comment.
+Check C04_modify_drops_comment : forall s P a t c col s' m,
+  modify_target a = Some (t, c) ->
+  lookup_column s t c = Some col ->
+  apply_action s a = Ok s' ->
+  modify_default_ok a col = true ->
+  p_comment_lost s a = true ->
+  c_comment col = Some m ->
+  exists pre d col',
+    gen s P a = Ok (pre ++ [SModifyColumn t d]) /\
+    lookup_column s' t c = Some col' /\
+    c_comment col' = Some m /\ cd_comment d = None.
+
+(* hence "all attributes, for every column outside the auto-increment class" is FALSE of the faithful model
+   (witness: corpus/mysql/comment_lost_on_modify.json; finding C04-comment-lost-on-modify) *)
+Theorem C04_modify_restates_all_unconditional_refuted :
+  ~ (forall s P a t c col s',
+       modify_target a = Some (t, c) -> lookup_column s t c = Some col -> apply_action s a = Ok s' ->
+       is_auto_col s t c = false -> modify_default_ok a col = true ->
+       exists pre d col', gen s P a = Ok (pre ++ [SModifyColumn t d]) /\ lookup_column s' t c = Some col' /\
+                          restated_all d = declared_all s' t col').
+Proof. exact modify_restates_all_needs_comment_condition. Qed.
+Print Assumptions C04_modify_restates_all_unconditional_refuted.
+Check C04_modify_restates_all_unconditional_refuted :
+  ~ (forall s P a t c col s',
+       modify_target a = Some (t, c) -> lookup_column s t c = Some col -> apply_action s a = Ok s' ->
+       is_auto_col s t c = false -> modify_default_ok a col = true ->
+       exists pre d col', gen s P a = Ok (pre ++ [SModifyColumn t d]) /\ lookup_column s' t c = Some col' /\
+                          restated_all d = declared_all s' t col').
+
+Example C04_modify_restates_all_hypotheses_satisfiable :
+  let col := mkCol "name" (TVarchar 32) false (Some (DStr "'x'")) None None None None None in
+  lookup_column ok_modify_schema "t" "name" = Some col /\
+  modify_all_hyp ok_modify_schema (ModifyColumnType "t" "name" (TSimple Text) None) "t" "name" col = true /\
+  modify_all_hyp ok_modify_schema (ModifyColumnNullable "t" "name" true None) "t" "name" col = true /\
+  modify_all_hyp ok_modify_schema (ModifyColumnDefault "t" "name" (Some "'y'")) "t" "name" col = true /\
+  modify_all_hyp ok_modify_schema (ModifyColumnComment "t" "name" (Some "note")) "t" "name" col = true /\
+  (* a column that already carries a comment: only ModifyColumnComment stays under the hypothesis *)
+  modify_all_hyp w_cm_base (ModifyColumnComment "t" "v" (Some "other")) "t" "v"
+                 (mkCol "v" (TSimple Integer) true None (Some "note") None None None None) = true /\
+  modify_all_hyp w_cm_base w_cm_action "t" "v" (mkCol "v" (TSimple Integer) true None (Some "note") None None None None) = false /\
+  p_comment_lost w_cm_base w_cm_action = true /\
+  gen w_cm_base [] w_cm_action = Ok [SModifyColumn "t" (mkColDef "v" "int" false (Some "0") false false None)].
+Proof. vm_compute. repeat split; reflexivity. Qed.
+
+(* ------------------------------------------------------------------------------------------------------
+   7. Situations the one-step lemmas of section 3 excluded wholesale although no finding class contains them. *)
+(* DeleteColumn of a column that one-column UNIQUE / INDEX keys are made of (multi-column keys: class
+   C04-composite-member-drop; foreign keys: C04-drop-column-with-foreign-key, C04-fk-lost-by-referenced-column-name) *)
+Theorem sim_mysql_delete_column_keys : forall s a, delete_column_keys_sim_hyp s a = true -> action_sim s a.
+Proof. exact sim_delete_column_keys. Qed.
+Print Assumptions sim_mysql_delete_column_keys.
+Check sim_mysql_delete_column_keys : forall s a, delete_column_keys_sim_hyp s a = true -> action_sim s a.
+
+(* RenameColumn of a column that NAMED unique keys / indexes / foreign keys contain (unnamed ones and referenced
+   columns: class C04-names-after-rename) *)
+Theorem sim_mysql_rename_column_named : forall s a, rename_column_named_sim_hyp s a = true -> action_sim s a.
+Proof. exact sim_rename_column_named. Qed.
+Print Assumptions sim_mysql_rename_column_named.
+Check sim_mysql_rename_column_named : forall s a, rename_column_named_sim_hyp s a = true -> action_sim s a.
+
+Example C04_widened_hypotheses_satisfiable :
+  delete_column_sim_hyp w_keys_schema (DeleteColumn "t" "name") = false /\
+  delete_column_keys_sim_hyp w_keys_schema (DeleteColumn "t" "name") = true /\
+  sim_proved_for_r3 w_keys_schema (DeleteColumn "t" "name") = false /\
+  sim_proved_for w_keys_schema (DeleteColumn "t" "name") = true /\
+  migration_ok w_keys_schema [DeleteColumn "t" "name"] = true /\
+  rename_column_sim_hyp w_named_schema (RenameColumn "t" "u_id" "owner_id") = false /\
+  rename_column_named_sim_hyp w_named_schema (RenameColumn "t" "u_id" "owner_id") = true /\
+  sim_proved_for_r3 w_named_schema (RenameColumn "t" "u_id" "owner_id") = false /\
+  sim_proved_for w_named_schema (RenameColumn "t" "u_id" "owner_id") = true /\
+  migration_ok w_named_schema [RenameColumn "t" "u_id" "owner_id"] = true /\
+  (* the unnamed index over the renamed column stays excluded: its derived name drifts (C04-names-after-rename) *)
+  sim_proved_for w_named_schema (RenameColumn "t" "n" "m") = false /\
+  known_C04_rename_drift w_named_schema [RenameColumn "t" "n" "m"] = true.
+Proof. vm_compute. repeat split; reflexivity. Qed.
